@@ -561,7 +561,7 @@ func c16Heal(c *Ctx, idx int, hosts, conns int, fault string) {
 		}
 		checkPolicyLog(r, bed, base, max, scenario)
 		return
-	case "mute-pooled", "mute-pooled-busy":
+	case "mute-pooled", "mute-pooled-busy", "mute-pooled-twice":
 		var victim *fakecass.Conn
 		for _, x := range bed.Cluster.Hosts[target-1].Conns() {
 			if !x.IsRegistered() {
@@ -608,6 +608,31 @@ func c16Heal(c *Ctx, idx int, hosts, conns int, fault string) {
 		bound := int(idle/hb) + 2
 		closed, steps := c16WaitClosed(bed, victim, idle)
 		unanswered := bed.Cluster.OptionsCount(victim.ID) - before
+		if fault == "mute-pooled-twice" && closed && unanswered <= bound {
+			// the connection that replaces it goes silent too: a replacement is watched like the connection it replaces
+			first := victim
+			var second *fakecass.Conn
+			waitFor(func() bool {
+				for _, x := range bed.Cluster.Hosts[target-1].Conns() {
+					if !x.IsRegistered() && x.ID > first.ID && !x.IsClosed() { // opened after the one it replaces
+						second = x
+						return true
+					}
+				}
+				return false
+			}, 15*time.Second)
+			if second == nil {
+				r.Inconc("c16 heal: no replacement connection to mute")
+				return
+			}
+			time.Sleep(50 * time.Millisecond) // its handshake is over
+			victim = second
+			before = bed.Cluster.OptionsCount(victim.ID)
+			victim.Mute()
+			closed, steps = c16WaitClosed(bed, victim, idle)
+			unanswered = bed.Cluster.OptionsCount(victim.ID) - before
+			r.Obs("muted_replacement_connections", 1)
+		}
 		r.Obs("muted_connections", 1)
 		r.ObsMax("max:unanswered_heartbeats_before_close", unanswered)
 		if unanswered > bound {
@@ -1018,7 +1043,7 @@ func runC16(c *Ctx) {
 			}
 		}
 	}
-	faults := []string{"kill-pooled", "kill-host", "kill-control", "kill-all", "mute-pooled", "mute-control", "stop-all-restart-one", "mute-pooled-busy", "kill-host-slow-start"}
+	faults := []string{"kill-pooled", "kill-host", "kill-control", "kill-all", "mute-pooled", "mute-control", "stop-all-restart-one", "mute-pooled-busy", "kill-host-slow-start", "mute-pooled-twice"}
 	for i := 0; i < c.Pick(28, 1400); i++ {
 		if j := next(); c.Mine(j) {
 			c16Heal(c, i, 1+i%4, 1+(i/4)%2, faults[(i*7+i/9)%len(faults)])
